@@ -35,7 +35,7 @@ fn new_batcher<'a>(rpb: usize, total: usize) -> Batcher<'a, usize> {
 }
 
 macro_rules! arrival_orders {
-    ($name:ident, $rpb:expr, $total:expr, $unw:literal) => {
+    ($name:ident, $rpb:expr, $total:expr, $unw:literal, $pre:expr) => {
         harness! {
             #[kani::unwind($unw)]
             #[kani::stub(tokio::sync::Notify::notify_waiters, crate::protocol::context::batcher::verif_kani::notify_waiters_nop)]
@@ -43,7 +43,13 @@ macro_rules! arrival_orders {
                 const RPB: usize = $rpb;
                 const T: usize = $total;
                 const NB: usize = (T + RPB - 1) / RPB;
+                const PRECREATE: bool = $pre;
                 let mut b = new_batcher(RPB, T);
+                if PRECREATE {
+                    // create every batch up front with a CONCRETE record id, so that batch creation
+                    // (tokio watch channel, BitVec) is not executed under a symbolic batch offset
+                    let _ = b.get_batch(RecordId::from(T - 1));
+                }
                 // symbolic permutation of the record ids 0..T
                 let order: [usize; T] = kani::any();
                 let mut seen = [false; T];
@@ -90,15 +96,17 @@ macro_rules! arrival_orders {
     };
 }
 
-arrival_orders!(t16_arrival_orders_rpb2_total3, 2, 3, 5);
-arrival_orders!(x16_single_batch_rpb3_total3, 3, 3, 5);
-arrival_orders!(x16_single_batch_rpb2_total2, 2, 2, 4);
-arrival_orders!(t16_arrival_orders_rpb1_total2, 1, 2, 4);
-arrival_orders!(t16_arrival_orders_rpb2_total2, 2, 2, 4);
-arrival_orders!(t16_arrival_orders_rpb1_total3, 1, 3, 5);
-arrival_orders!(t16_arrival_orders_rpb2_total4, 2, 4, 6);
-arrival_orders!(t16_arrival_orders_rpb2_total5, 2, 5, 7);
-arrival_orders!(t16_arrival_orders_rpb3_total5, 3, 5, 7);
+arrival_orders!(x16_arrival_orders_rpb2_total3, 2, 3, 5, false);
+arrival_orders!(x16_precreated_rpb2_total3, 2, 3, 5, true);
+arrival_orders!(x16_precreated_rpb1_total2, 1, 2, 4, true);
+arrival_orders!(x16_single_batch_rpb3_total3, 3, 3, 5, false);
+arrival_orders!(x16_single_batch_rpb2_total2, 2, 2, 4, false);
+arrival_orders!(x16_arrival_orders_rpb1_total2, 1, 2, 4, false);
+arrival_orders!(x16_arrival_orders_rpb2_total2, 2, 2, 4, false);
+arrival_orders!(x16_arrival_orders_rpb1_total3, 1, 3, 5, false);
+arrival_orders!(x16_arrival_orders_rpb2_total4, 2, 4, 6, false);
+arrival_orders!(x16_arrival_orders_rpb2_total5, 2, 5, 7, false);
+arrival_orders!(x16_arrival_orders_rpb3_total5, 3, 5, 7, false);
 
 // native replay slot (cargo kani playback): the driver points IPA_VERIF_REPLAY_DIR at a directory
 // holding one file per hook; the generated test calls the harness by its path relative to this module.
